@@ -3,6 +3,7 @@ import JF.Model.MPMediator
 # C20 helper lemmas 1: what each mediator action does to the local state of the handler it touches
 -/
 namespace JF.MP
+set_option linter.unusedSimpArgs false
 
 @[simp] theorem upd_same (s : St) (h : Nat) (x : HS) : upd s h x h = x := by simp [upd]
 theorem upd_other (s : St) {h k : Nat} (x : HS) (hk : k ≠ h) : upd s h x k = s k := by simp [upd, hk]
@@ -94,7 +95,7 @@ theorem commit_ok (x : HS) (hc : x.coh = true) (hi : x.stage ≠ .timeStarted)
       obtain ⟨hp, hch⟩ := hp
       subst hch
       rcases hp with hp | hp <;> subst hp <;>
-        exact ⟨_, _, rfl, rfl, by simp [HS.coh, HS.start, HS.finish], rfl, rfl, by simp [HS.quiescent]⟩
+        exact ⟨_, _, rfl, rfl, by simp [HS.coh, HS.start, HS.finish], rfl, rfl⟩
   | suspended =>
     have hs' : stored = none := by
       cases stored with
@@ -103,7 +104,7 @@ theorem commit_ok (x : HS) (hc : x.coh = true) (hi : x.stage ≠ .timeStarted)
     simp only at hp
     obtain ⟨hp, hch⟩ := hp
     subst hs' hp hch
-    exact ⟨_, _, rfl, rfl, by simp [HS.coh, HS.start, HS.finish], rfl, rfl, by simp [HS.quiescent]⟩
+    exact ⟨_, _, rfl, rfl, by simp [HS.coh, HS.start, HS.finish], rfl, rfl⟩
   | outStarted =>
     have hs' : stored = none := by
       cases stored with
@@ -112,7 +113,7 @@ theorem commit_ok (x : HS) (hc : x.coh = true) (hi : x.stage ≠ .timeStarted)
     simp only at hp
     subst hs'
     rcases hp with ⟨hp, hch⟩ | ⟨hp, hch⟩ <;> subst hp hch <;>
-      exact ⟨_, _, rfl, rfl, by simp [HS.coh, HS.start, HS.finish], rfl, rfl, by simp [HS.quiescent]⟩
+      exact ⟨_, _, rfl, rfl, by simp [HS.coh, HS.start, HS.finish], rfl, rfl⟩
 
 /-- the body of the trash loop succeeds on every handler that is not `event_time_started` and leaves it idle without
 stored out-state -/
@@ -130,15 +131,15 @@ theorem trash_ok (x : HS) (hc : x.coh = true) (hi : x.stage ≠ .timeStarted) :
     obtain ⟨hp, hch⟩ := hp
     subst hch
     rcases hp with hp | hp <;> subst hp <;>
-      exact ⟨_, _, rfl, rfl, by simp [HS.coh, HS.start, HS.finish], rfl, rfl, by simp [HS.quiescent]⟩
+      exact ⟨_, _, rfl, rfl, by simp [HS.coh, HS.start, HS.finish], rfl, rfl, by simp [HS.quiescent, HS.finish]⟩
   | suspended =>
     simp only at hp
     obtain ⟨hp, hch⟩ := hp
     subst hp hch
-    exact ⟨_, _, rfl, rfl, by simp [HS.coh, HS.start, HS.finish], rfl, rfl, by simp [HS.quiescent]⟩
+    exact ⟨_, _, rfl, rfl, by simp [HS.coh, HS.start, HS.finish], rfl, rfl, by simp [HS.quiescent, HS.finish]⟩
   | outStarted =>
     simp only at hp
     rcases hp with ⟨hp, hch⟩ | ⟨hp, hch⟩ <;> subst hp hch <;>
-      exact ⟨_, _, rfl, rfl, by simp [HS.coh, HS.start, HS.finish], rfl, rfl, by simp [HS.quiescent]⟩
+      exact ⟨_, _, rfl, rfl, by simp [HS.coh, HS.start, HS.finish], rfl, rfl, by simp [HS.quiescent, HS.finish]⟩
 
 end JF.MP
